@@ -39,7 +39,9 @@ TRUSTED = [
 ]
 RULE = ("case = list of values (strings / formatted values); streams: corpus, set-boundary (every "
         "special character of a set as member / range start / range end, escaped / encoded / raw, first / "
-        "middle / last, plain and complemented), grammar-generated "
+        "middle / last, plain and complemented), quantifier-boundary ({m} and {m,n} with m, n in "
+        "empty/0/1/2/3/10, blanks in every placement, with and without ?, after a char, a group, a set), "
+        "grammar-generated "
         "patterns of the supported subset, near-miss mutations and short metacharacter strings, "
         "f-string interleavings, value lists violating the Cursor precondition; non-trivial = "
         "the pattern parses to a tree with at least one quantifier, character set or group, or "
@@ -380,6 +382,8 @@ def streams(ctx: lib.Ctx) -> None:
         boundary = keep + rng.sample(rest, len(rest) // 3)
     for v in boundary:
         add("set-boundary", v)
+    for v in gen.quantifier_boundary_cases(full=ctx.thorough):
+        add("quantifier-boundary", v)
     saved = ctx.work.parent.parent / "harness" / "corpus" / "c16.json"
     if saved.exists():
         for v in json.loads(saved.read_text()):
@@ -388,9 +392,9 @@ def streams(ctx: lib.Ctx) -> None:
     grams = [gen.gen_pattern(rng, fvs=False) for _ in range(n_gram)]
     for g in grams:
         add("grammar", g)
-    for _ in range(ctx.n(500, 5000)):
+    for _ in range(ctx.n(400, 5000)):
         add("near-miss", gen.mutate(rng, rng.choice(grams)))
-    for _ in range(ctx.n(400, 4000)):
+    for _ in range(ctx.n(300, 4000)):
         add("near-miss", gen.near_miss(rng))
     ex = list(gen.exhaustive(ctx.n(3, 4)))
     if not ctx.thorough:
